@@ -99,3 +99,372 @@ TWINS = [
     ]},
     {"name": "secure-filename-strip-set-reordered", "edits": [(U, _SUB, 'filename = str(_filename_ascii_strip_re.sub("", "_".join(filename.split()))).strip(\n        "_."\n    )')]},
 ]
+
+# ---------------------------------------------------------------------
+# round 2: R14.2 / R14.3 decided on value origins (conditional arms, helpers, closures, flags)
+
+DL = (
+    "            if path is not None:\n"
+    "                path = safe_join(directory, path)\n\n"
+    "                if path is None:\n"
+    "                    return None, None\n"
+    "            else:\n"
+    "                path = directory\n\n"
+    "            if os.path.isfile(path):\n"
+    "                return os.path.basename(path), self._opener(path)\n\n"
+    "            return None, None\n"
+)
+DL_TAIL = (
+    "            if os.path.isfile(target):\n"
+    "                return os.path.basename(target), self._opener(target)\n\n"
+    "            return None, None\n"
+)
+PL = (
+    "            if path is None:\n"
+    "                return None, None\n\n"
+    "            path = safe_join(package_path, path)\n\n"
+    "            if path is None:\n"
+    "                return None, None\n\n"
+    "            basename = posixpath.basename(path)\n\n"
+    "            try:\n"
+    "                resource = reader.open_resource(path)\n"
+)
+PL_TAIL = (
+    "            basename = posixpath.basename(checked)\n\n"
+    "            try:\n"
+    "                resource = reader.open_resource(checked)\n"
+)
+SFD = (
+    "    path_str = safe_join(os.fspath(directory), os.fspath(path))\n\n"
+    "    if path_str is None:\n"
+    "        raise NotFound()\n"
+)
+SFD_ROOT = (
+    '    if "_root_path" in kwargs:\n'
+    '        path_str = os.path.join(kwargs["_root_path"], path_str)\n\n'
+    "    if not os.path.isfile(path_str):\n"
+    "        raise NotFound()\n"
+)
+SFD_SIG = "def send_from_directory(\n"
+GDL = "    def get_directory_loader(self, directory: str) -> _TLoader:\n"
+LOADER_HEAD = (
+    "        def loader(\n"
+    "            path: str | None,\n"
+    "        ) -> tuple[str | None, _TOpener | None]:\n"
+)
+GDL_ALL = GDL + LOADER_HEAD + DL + "\n        return loader\n"
+CALL_TEST = "        if file_loader is None or not self.is_allowed(real_filename):  # type: ignore\n            return self.app(environ, start_response)\n"
+
+
+def _contained(check: str) -> str:
+    return (
+        "def _contained_path(directory: t.Any, path: t.Any) -> str:\n"
+        "    joined = safe_join(os.fspath(directory), os.fspath(path))\n\n"
+        + check +
+        "    return joined\n\n\n"
+    )
+
+
+def _resolve(ret: str) -> str:
+    return (
+        "    def _resolve(self, directory: str, path: str | None) -> str | None:\n"
+        "        if path is None:\n"
+        "            return directory\n\n"
+        f"        return {ret}\n\n"
+    )
+
+
+_RESOLVE_USE = "            target = self._resolve(directory, path)\n\n            if target is None:\n                return None, None\n\n" + DL_TAIL
+
+
+def _method(lam: str, body: str = DL) -> str:
+    return (
+        "    def _load_from_directory(\n"
+        "        self, directory: str, path: str | None\n"
+        "    ) -> tuple[str | None, _TOpener | None]:\n"
+        + body.replace("            ", "        ", 1).replace("\n            ", "\n        ")
+        + "\n" + GDL + f"        return {lam}\n"
+    )
+
+
+def _serve(test: str) -> str:
+    return (
+        "    def _serve_file(self, target: str | None) -> tuple[str | None, _TOpener | None]:\n"
+        f"        if {test}:\n"
+        "            return None, None\n\n"
+        "        return os.path.basename(target), self._opener(target)\n\n"
+    )
+
+
+_SERVE_USE = "            target = directory if path is None else safe_join(directory, path)\n            return self._serve_file(target)\n"
+
+TWINS += [
+    {"name": "package-loader-merged-guard-flipped-arms", "edits": [(M, PL, "            checked = safe_join(package_path, path) if path is not None else None\n\n            if checked is None:\n                return None, None\n\n" + PL_TAIL)]},
+    {"name": "directory-loader-walrus-elif", "edits": [(M, DL, "            if path is None:\n                target = directory\n            elif (target := safe_join(directory, path)) is None:\n                return None, None\n\n" + DL_TAIL)]},
+    {"name": "send-from-directory-helper-raises", "edits": [(U, SFD, "    path_str = _contained_path(directory, path)\n"), (U, SFD_SIG, _contained("    if joined is None:\n        raise NotFound()\n\n") + SFD_SIG)]},
+    {"name": "send-from-directory-helper-passes-none-on", "edits": [(U, SFD, "    path_str = _contained_path(directory, path)\n\n    if path_str is None:\n        raise NotFound()\n"), (U, SFD_SIG, _contained("    if joined is None:\n        return None\n\n") + SFD_SIG)]},
+    {"name": "directory-loader-resolve-method", "edits": [(M, DL, _RESOLVE_USE), (M, GDL, _resolve("safe_join(directory, path)") + GDL)]},
+    {"name": "directory-loader-conditional-return", "edits": [(M, "            if os.path.isfile(path):\n                return os.path.basename(path), self._opener(path)\n\n            return None, None\n", "            return (\n                (os.path.basename(path), self._opener(path))\n                if os.path.isfile(path)\n                else (None, None)\n            )\n")]},
+    {"name": "directory-loader-none-test-in-conditional-return", "edits": [(M, DL, "            target = directory if path is None else safe_join(directory, path)\n            return (\n                (None, None)\n                if target is None or not os.path.isfile(target)\n                else (os.path.basename(target), self._opener(target))\n            )\n")]},
+    {"name": "send-from-directory-flag-variable", "edits": [(U, SFD, "    path_str = safe_join(os.fspath(directory), os.fspath(path))\n    refused = path_str is None\n\n    if refused:\n        raise NotFound()\n")]},
+    {"name": "directory-loader-method-and-lambda", "edits": [(M, GDL_ALL, _method("lambda path: self._load_from_directory(directory, path)"))]},
+    {"name": "directory-loader-method-and-partial", "edits": [(M, GDL_ALL, _method("functools.partial(self._load_from_directory, directory)")), (M, "import importlib.util\n", "import functools\nimport importlib.util\n")]},
+    {"name": "directory-loader-none-test-in-helper", "edits": [(M, DL, _SERVE_USE), (M, GDL, _serve("target is None or not os.path.isfile(target)") + GDL)]},
+    {"name": "call-split-fallthrough-tests", "edits": [(M, CALL_TEST, "        if file_loader is None:\n            return self.app(environ, start_response)\n\n        if not self.is_allowed(real_filename):  # type: ignore\n            return self.app(environ, start_response)\n")]},
+    {"name": "call-loader-answer-through-a-local", "edits": [(M, "                real_filename, file_loader = loader(None)\n", "                answer = loader(None)\n                real_filename, file_loader = answer\n")]},
+    {"name": "send-from-directory-merged-none-and-isfile-test", "edits": [(U, SFD + "\n    # Flask will pass app.root_path, allowing its send_from_directory\n    # wrapper to not have to deal with paths.\n" + SFD_ROOT, "    path_str = safe_join(os.fspath(directory), os.fspath(path))\n\n    if path_str is not None and \"_root_path\" in kwargs:\n        path_str = os.path.join(kwargs[\"_root_path\"], path_str)\n\n    if path_str is None or not os.path.isfile(path_str):\n        raise NotFound()\n")]},
+    {"name": "directory-loader-merged-none-and-isfile-test", "edits": [(M, DL, "            target = directory if path is None else safe_join(directory, path)\n\n            if target is None or not os.path.isfile(target):\n                return None, None\n\n            return os.path.basename(target), self._opener(target)\n")]},
+    {"name": "package-loader-copy-tested-through-original", "edits": [(M, PL, "            if path is None:\n                return None, None\n\n            joined = safe_join(package_path, path)\n            checked = joined\n\n            if joined is None:\n                return None, None\n\n" + PL_TAIL)]},
+]
+
+MUTANTS += [
+    {"name": "merged-guard-tests-the-raw-path", "expect": "R14.3", "edits": [(M, PL, "            checked = safe_join(package_path, path) if path is not None else None\n\n            if path is None:\n                return None, None\n\n" + PL_TAIL)]},
+    {"name": "conditional-arm-leaks-raw-path", "expect": "R14.2", "edits": [(M, PL, "            if path is None:\n                return None, None\n\n            checked = safe_join(package_path, path) if package_path else path\n\n            if checked is None:\n                return None, None\n\n" + PL_TAIL)]},
+    {"name": "walrus-test-polarity-inverted", "expect": "R14.3", "edits": [(M, DL, "            if path is None:\n                target = directory\n            elif (target := safe_join(directory, path)) is not None:\n                return None, None\n\n" + DL_TAIL)]},
+    {"name": "helper-falls-back-to-raw-path", "expect": "R14.2", "edits": [(U, SFD, "    path_str = _contained_path(directory, path)\n"), (U, SFD_SIG, _contained("    if joined is None:\n        joined = os.fspath(path)\n\n") + SFD_SIG)]},
+    {"name": "helper-result-not-tested-by-caller", "expect": "R14.3", "edits": [(U, SFD, "    path_str = _contained_path(directory, path)\n"), (U, SFD_SIG, _contained("    if joined is None:\n        return None\n\n") + SFD_SIG)]},
+    {"name": "helper-without-none-test", "expect": "R14.3", "edits": [(U, SFD, "    path_str = _contained_path(directory, path)\n"), (U, SFD_SIG, _contained("") + SFD_SIG)]},
+    {"name": "resolve-method-plain-join", "expect": "R14.2", "edits": [(M, DL, _RESOLVE_USE), (M, GDL, _resolve("posixpath.join(directory, path)") + GDL)]},
+    {"name": "resolve-method-result-untested", "expect": "R14.3", "edits": [(M, DL, "            target = self._resolve(directory, path)\n\n" + DL_TAIL), (M, GDL, _resolve("safe_join(directory, path)") + GDL)]},
+    {"name": "conditional-return-without-none-test", "expect": "R14.3", "edits": [(M, DL, "            target = directory if path is None else safe_join(directory, path)\n            return (\n                (None, None)\n                if not os.path.isfile(target)\n                else (os.path.basename(target), self._opener(target))\n            )\n")]},
+    {"name": "conditional-return-none-arm-serves", "expect": "R14.3", "edits": [(M, DL, "            target = directory if path is None else safe_join(directory, path)\n            return (\n                (os.path.basename(directory), self._opener(directory))\n                if target is None or not os.path.isfile(target)\n                else (os.path.basename(target), self._opener(target))\n            )\n")]},
+    {"name": "flag-computed-from-the-raw-path", "expect": "R14.3", "edits": [(U, SFD, "    path_str = safe_join(os.fspath(directory), os.fspath(path))\n    refused = path is None\n\n    if refused:\n        raise NotFound()\n")]},
+    {"name": "flag-computed-before-the-join", "expect": "R14.3", "edits": [(U, SFD, "    path_str = None\n    refused = path_str is None\n    path_str = safe_join(os.fspath(directory), os.fspath(path))\n\n    if not refused:\n        raise NotFound()\n")]},
+    {"name": "lambda-swaps-directory-and-path", "expect": "R14.2", "edits": [(M, GDL_ALL, _method("lambda path: self._load_from_directory(path, directory)"))]},
+    {"name": "method-loader-plain-join", "expect": "R14.2", "edits": [(M, GDL_ALL, _method("lambda path: self._load_from_directory(directory, path)", DL.replace("path = safe_join(directory, path)", "path = posixpath.join(directory, path)")))]},
+    {"name": "partial-method-loader-plain-join", "expect": "R14.2", "edits": [(M, GDL_ALL, _method("functools.partial(self._load_from_directory, directory)", DL.replace("path = safe_join(directory, path)", "path = posixpath.join(directory, path)"))), (M, "import importlib.util\n", "import functools\nimport importlib.util\n")]},
+    {"name": "helper-forgets-none-test-of-its-parameter", "expect": "R14.3", "edits": [(M, DL, _SERVE_USE), (M, GDL, _serve("not os.path.isfile(target)") + GDL)]},
+    {"name": "split-fallthrough-drops-none-test", "expect": "R14.3", "edits": [(M, CALL_TEST, "        if not self.is_allowed(real_filename):  # type: ignore\n            return self.app(environ, start_response)\n")]},
+    {"name": "merged-test-drops-none-disjunct", "expect": "R14.3", "edits": [(M, DL, "            target = directory if path is None else safe_join(directory, path)\n\n            if not os.path.isfile(target):\n                return None, None\n\n            return os.path.basename(target), self._opener(target)\n")]},
+    {"name": "copy-made-before-test-of-other-value", "expect": "R14.3", "edits": [(M, PL, "            if path is None:\n                return None, None\n\n            joined = safe_join(package_path, path)\n            checked = joined\n            joined = package_path\n\n            if joined is None:\n                return None, None\n\n" + PL_TAIL)]},
+]
+
+_OPENER_CLOSURE = (
+    "            if os.path.isfile(path):\n"
+    "                served = path\n\n"
+    "                def opener() -> tuple[t.IO[bytes], datetime, int]:\n"
+    "                    return (\n"
+    "                        open(OPENED, \"rb\"),\n"
+    "                        datetime.fromtimestamp(os.path.getmtime(served), tz=timezone.utc),\n"
+    "                        int(os.path.getsize(served)),\n"
+    "                    )\n\n"
+    "                return os.path.basename(path), opener\n\n"
+    "            return None, None\n"
+)
+_DL_TEST = "            if os.path.isfile(path):\n                return os.path.basename(path), self._opener(path)\n\n            return None, None\n"
+SERVE_BLOCK_HEAD = "        guessed_type = mimetypes.guess_type(real_filename)  # type: ignore\n"
+_SERVE_DEF = (
+    "    def _serve(\n"
+    "        self,\n"
+    "        environ: WSGIEnvironment,\n"
+    "        start_response: StartResponse,\n"
+    "        real_filename: str,\n"
+    "        file_loader: _TOpener,\n"
+    "    ) -> t.Iterable[bytes]:\n"
+)
+
+TWINS += [
+    {"name": "package-loader-walrus-in-merged-or-test", "edits": [(M, PL, "            if path is None or (path := safe_join(package_path, path)) is None:\n                return None, None\n\n            basename = posixpath.basename(path)\n\n            try:\n                resource = reader.open_resource(path)\n")]},
+    {"name": "directory-loader-opener-inlined-as-closure", "edits": [(M, _DL_TEST, _OPENER_CLOSURE.replace("OPENED", "served"))]},
+    {"name": "call-serving-block-extracted", "edits": [
+        (M, CALL_TEST + "\n" + SERVE_BLOCK_HEAD, CALL_TEST.replace("file_loader is None or not self.is_allowed(real_filename)", "file_loader is not None and self.is_allowed(real_filename)").replace("return self.app(environ, start_response)", "return self._serve(environ, start_response, real_filename, file_loader)  # type: ignore") + "\n        return self.app(environ, start_response)\n\n" + _SERVE_DEF + SERVE_BLOCK_HEAD),
+    ]},
+    {"name": "send-from-directory-fspath-hoisted-and-root-via-get", "edits": [(U, SFD, "    base = os.fspath(directory)\n    requested = os.fspath(path)\n    path_str = safe_join(base, requested)\n\n    if path_str is None:\n        raise NotFound()\n")]},
+    {"name": "send-from-directory-truthiness-none-test", "edits": [(U, SFD, "    path_str = safe_join(os.fspath(directory), os.fspath(path))\n\n    if not isinstance(path_str, str):\n        raise NotFound()\n")]},
+]
+MUTANTS += [
+    {"name": "walrus-binds-another-name-raw-path-opened", "expect": "R14.2", "edits": [(M, PL, "            if path is None or (checked := safe_join(package_path, path)) is None:\n                return None, None\n\n            basename = posixpath.basename(path)\n\n            try:\n                resource = reader.open_resource(path)\n")]},
+    {"name": "closure-opens-request-name", "expect": "R14.2", "edits": [(M, _DL_TEST, _OPENER_CLOSURE.replace("OPENED", "os.path.join(directory, requested)")), (M, "            if path is not None:\n                path = safe_join(directory, path)\n", "            requested = path\n\n            if path is not None:\n                path = safe_join(directory, path)\n")]},
+    {"name": "extracted-serving-block-called-without-none-test", "expect": "R14.3", "edits": [
+        (M, CALL_TEST + "\n" + SERVE_BLOCK_HEAD, CALL_TEST.replace("file_loader is None or not self.is_allowed(real_filename)", "self.is_allowed(real_filename)").replace("return self.app(environ, start_response)", "return self._serve(environ, start_response, real_filename, file_loader)  # type: ignore") + "\n        return self.app(environ, start_response)\n\n" + _SERVE_DEF + SERVE_BLOCK_HEAD),
+    ]},
+    {"name": "extracted-serving-block-none-edge-is-not-the-app", "expect": "R14.3", "edits": [
+        (M, CALL_TEST + "\n" + SERVE_BLOCK_HEAD, CALL_TEST.replace("file_loader is None or not self.is_allowed(real_filename)", "file_loader is not None and self.is_allowed(real_filename)").replace("return self.app(environ, start_response)", "return self._serve(environ, start_response, real_filename, file_loader)  # type: ignore") + "\n        return []\n\n" + _SERVE_DEF + SERVE_BLOCK_HEAD),
+    ]},
+]
+
+TWINS += [
+    {"name": "directory-loader-refusal-tuple-hoisted", "edits": [(M, DL, "            nothing = None, None\n\n" + DL.replace("return None, None", "return nothing"))]},
+    {"name": "send-from-directory-exception-built-once", "edits": [(U, SFD + "\n    # Flask will pass app.root_path, allowing its send_from_directory\n    # wrapper to not have to deal with paths.\n" + SFD_ROOT, "    missing = NotFound()\n" + SFD.replace("raise NotFound()", "raise missing") + "\n" + SFD_ROOT.replace("raise NotFound()", "raise missing"))]},
+    {"name": "call-app-response-through-a-local", "edits": [(M, CALL_TEST, CALL_TEST.replace("            return self.app(environ, start_response)\n", "            fallback = self.app(environ, start_response)\n            return fallback\n"))]},
+]
+MUTANTS += [
+    {"name": "hoisted-refusal-is-not-a-refusal", "expect": "R14.3", "edits": [(M, DL, "            nothing = os.path.basename(directory), self._opener(directory)\n\n" + DL.replace("                    return None, None", "                    return nothing"))]},
+    {"name": "exception-built-once-is-not-not-found", "expect": "R14.3", "edits": [(U, SFD, "    missing = ValueError(path)\n" + SFD.replace("raise NotFound()", "raise missing"))]},
+]
+
+_CALL_HEAD = (
+    "    def __call__(\n"
+    "        self, environ: WSGIEnvironment, start_response: StartResponse\n"
+    "    ) -> t.Iterable[bytes]:\n"
+)
+_CALL_LOOP = (
+    "        path = get_path_info(environ)\n"
+    "        file_loader = None\n\n"
+    "        for search_path, loader in self.exports:\n"
+    "            if search_path == path:\n"
+    "                real_filename, file_loader = loader(None)\n\n"
+    "                if file_loader is not None:\n"
+    "                    break\n\n"
+    "            if not search_path.endswith(\"/\"):\n"
+    "                search_path += \"/\"\n\n"
+    "            if path.startswith(search_path):\n"
+    "                real_filename, file_loader = loader(path[len(search_path) :])\n\n"
+    "                if file_loader is not None:\n"
+    "                    break\n\n"
+)
+
+
+def _find(miss: str) -> str:
+    return (
+        "    def _find(self, path: str) -> tuple[str, _TOpener] | None:\n"
+        "        for search_path, loader in self.exports:\n"
+        "            if search_path == path:\n"
+        "                real_filename, file_loader = loader(None)\n\n"
+        "                if file_loader is not None:\n"
+        "                    return real_filename, file_loader\n\n"
+        "            if not search_path.endswith(\"/\"):\n"
+        "                search_path += \"/\"\n\n"
+        "            if path.startswith(search_path):\n"
+        "                real_filename, file_loader = loader(path[len(search_path) :])\n\n"
+        "                if file_loader is not None:\n"
+        "                    return real_filename, file_loader\n\n"
+        "        return None\n\n"
+        + _CALL_HEAD +
+        "        found = self._find(get_path_info(environ))\n\n"
+        + miss +
+        "        real_filename, file_loader = found\n\n"
+        "        if not self.is_allowed(real_filename):\n"
+        "            return self.app(environ, start_response)\n"
+    )
+
+
+TWINS += [
+    {"name": "call-lookup-returns-optional-pair", "edits": [(M, _CALL_HEAD + _CALL_LOOP + CALL_TEST, _find("        if found is None:\n            return self.app(environ, start_response)\n\n"))]},
+]
+MUTANTS += [
+    {"name": "optional-pair-miss-answers-empty-body", "expect": "R14.3", "edits": [(M, _CALL_HEAD + _CALL_LOOP + CALL_TEST, _find("        if found is None:\n            return []\n\n"))]},
+]
+
+TWINS += [
+    {"name": "directory-loader-join-result-passed-straight-to-helper", "edits": [(M, DL, "            if path is None:\n                return self._serve_file(target=directory)\n\n            return self._serve_file(target=safe_join(directory, path))\n"), (M, GDL, _serve("target is None or not os.path.isfile(target)") + GDL)]},
+]
+MUTANTS += [
+    {"name": "join-result-passed-straight-to-helper-that-does-not-test", "expect": "R14.3", "edits": [(M, DL, "            if path is None:\n                return self._serve_file(target=directory)\n\n            return self._serve_file(target=safe_join(directory, path))\n"), (M, GDL, _serve("not os.path.isfile(target)") + GDL)]},
+]
+
+# ---------------------------------------------------------------------
+# round 2: R14.1 / R14.4 decided on what is computed (traversal / accumulation / filter / helpers spelled differently)
+
+_LOOP = "    parts = [directory]\n\n    for filename in pathnames:\n" + _NORM + _TEST + "        parts.append(filename)\n\n    return posixpath.join(*parts)\n"
+_COND = (
+    "any(sep in NAME for sep in _os_alt_seps)\n"
+    "            or os.path.isabs(NAME)\n"
+    '            or NAME.startswith("/")\n'
+    '            or NAME == ".."\n'
+    '            or NAME.startswith("../")\n'
+)
+_WIN = (
+    "    if (\n"
+    '        os.name == "nt"\n'
+    "        and filename\n"
+    '        and filename.split(".")[0].upper() in _windows_device_files\n'
+    "    ):\n"
+    '        filename = f"_{filename}"\n\n'
+    "    return filename\n"
+)
+_SEPS = "    for sep in os.sep, os.path.altsep:\n        if sep:\n            filename = filename.replace(sep, \" \")\n"
+TWINS += [
+    {"name": "sj-comprehension-form", "edits": [(S, _LOOP, '    cleaned = [posixpath.normpath(p) if p != "" else p for p in pathnames]\n\n    for filename in cleaned:\n' + _TEST + "    return posixpath.join(directory, *cleaned)\n")]},
+    {"name": "sj-comprehension-any-form", "edits": [(S, _LOOP, '    cleaned = [posixpath.normpath(p) if p != "" else p for p in pathnames]\n\n    if any(\n        (\n            ' + _COND.replace("NAME", "p") + "        )\n        for p in cleaned\n    ):\n        return None\n\n    return posixpath.join(directory, *cleaned)\n")]},
+    {"name": "sj-incremental-join", "edits": [(S, _LOOP, "    result = directory\n\n    for filename in pathnames:\n" + _NORM + _TEST + "        result = posixpath.join(result, filename)\n\n    return result\n")]},
+    {"name": "sj-list-rebuilt", "edits": [(S, "        parts.append(filename)\n", "        parts = [*parts, filename]\n")]},
+    {"name": "sj-augmented-list", "edits": [(S, "        parts.append(filename)\n", "        parts += [filename]\n")]},
+    {"name": "sj-startswith-tuple", "edits": [(S, '            or filename.startswith("/")\n            or filename == ".."\n            or filename.startswith("../")\n', '            or filename.startswith(("/", "../"))\n            or filename == ".."\n')]},
+    {"name": "sj-first-segment-test", "edits": [(S, '            or filename == ".."\n            or filename.startswith("../")\n', '            or filename.partition("/")[0] == ".."\n')]},
+    {"name": "sj-index-loop", "edits": [(S, "    for filename in pathnames:\n", "    for index in range(len(pathnames)):\n        filename = pathnames[index]\n\n")]},
+    {"name": "sj-enumerate-loop", "edits": [(S, "    for filename in pathnames:\n", "    for _index, filename in enumerate(pathnames):\n")]},
+    {"name": "sj-directory-default-or", "edits": [(S, '    if not directory:\n        # Ensure we end up with ./path if directory="" is given,\n        # otherwise the first untrusted part could become trusted.\n        directory = "."\n\n    parts = [directory]\n', '    parts = [directory or "."]\n')]},
+    {"name": "sj-flag-and-break", "edits": [(S, "    parts = [directory]\n\n    for filename in pathnames:\n" + _NORM + _TEST, "    parts = [directory]\n    refused = False\n\n    for filename in pathnames:\n" + _NORM + _TEST.replace("            return None\n", "            refused = True\n            break\n")), (S, "    return posixpath.join(*parts)\n", "    if refused:\n        return None\n\n    return posixpath.join(*parts)\n")]},
+    {"name": "sj-normalise-in-separate-pass", "edits": [(S, "    for filename in pathnames:\n" + _NORM, '    normalised = [posixpath.normpath(p) if p != "" else "" for p in pathnames]\n\n    for filename in normalised:\n')]},
+    {"name": "sj-in-tuple-dotdot", "edits": [(S, '            or filename == ".."\n', '            or filename in ("..",)\n')]},
+    {"name": "sf-conditional-return", "edits": [(U, _WIN, "    reserved = (\n        os.name == \"nt\"\n        and filename\n        and filename.split(\".\")[0].upper() in _windows_device_files\n    )\n    return f\"_{filename}\" if reserved else filename\n")]},
+    {"name": "sf-lstrip-rstrip", "edits": [(U, _SUB, 'filename = str(_filename_ascii_strip_re.sub("", "_".join(filename.split())))\n    filename = filename.lstrip("._").rstrip("._")')]},
+    {"name": "sf-re-sub-function", "edits": [(U, _SUB, 'filename = re.sub(_filename_ascii_strip_re, "", "_".join(filename.split())).strip("._")')]},
+    {"name": "sf-seps-comprehension", "edits": [(U, _SEPS, "    for sep in [s for s in (os.sep, os.path.altsep) if s]:\n        filename = filename.replace(sep, \" \")\n")]},
+    {"name": "sf-seps-unrolled", "edits": [(U, _SEPS, "    filename = filename.replace(os.sep, \" \")\n\n    if os.path.altsep:\n        filename = filename.replace(os.path.altsep, \" \")\n")]},
+    {"name": "sf-device-helper", "edits": [(U, _WIN, "    if _is_device_file(filename):\n        filename = f\"_{filename}\"\n\n    return filename\n"), (U, "def secure_filename(filename: str) -> str:\n", "def _is_device_file(name: str) -> bool:\n    return bool(\n        os.name == \"nt\"\n        and name\n        and name.split(\".\")[0].upper() in _windows_device_files\n    )\n\n\ndef secure_filename(filename: str) -> str:\n")]},
+    {"name": "sf-prefix-by-concatenation", "edits": [(U, '        filename = f"_{filename}"\n', '        filename = "_" + filename\n')]},
+    {"name": "sf-whitespace-regex", "edits": [(U, _SUB, 'filename = _filename_ascii_strip_re.sub("", re.sub(r"\\s+", "_", filename.strip())).strip("._")')]},
+    {"name": "sf-char-filter-comprehension", "edits": [(U, _SUB, 'filename = "".join(\n        ch for ch in "_".join(filename.split()) if not _filename_ascii_strip_re.match(ch)\n    ).strip("._")')]},
+]
+
+_CLEANED = '    cleaned = [posixpath.normpath(p) if p != "" else p for p in pathnames]\n\n'
+_ANY = "    if any(\n        (\n            " + _COND.replace("NAME", "p") + "        )\n        for p in SEQ\n    ):\n        return None\n\n"
+TWINS += [
+    {"name": "sj-head-slices", "edits": [(S, '            or filename.startswith("/")\n            or filename == ".."\n            or filename.startswith("../")\n', '            or filename[:1] == "/"\n            or filename == ".."\n            or filename[:3] == "../"\n')]},
+    {"name": "sj-split-first-segment", "edits": [(S, '            or filename == ".."\n            or filename.startswith("../")\n', '            or filename.split("/", 1)[0] == ".."\n')]},
+    {"name": "sj-all-form", "edits": [(S, _LOOP, _CLEANED + "    if not all(\n        not (\n            " + _COND.replace("NAME", "p") + "        )\n        for p in cleaned\n    ):\n        return None\n\n    return posixpath.join(directory, *cleaned)\n")]},
+    {"name": "sj-check-pass-then-append-pass", "edits": [(S, _LOOP, "    parts = [directory]\n\n    for filename in pathnames:\n" + _NORM + _TEST + "    for filename in pathnames:\n        parts.append(filename)\n\n    return posixpath.join(*parts)\n")]},
+    {"name": "sj-result-bound-then-returned", "edits": [(S, "    return posixpath.join(*parts)\n", "    joined = posixpath.join(*parts)\n    return joined\n")]},
+]
+MUTANTS += [
+    {"name": "sj-any-check-over-raw-components", "expect": "R14.1", "edits": [(S, _LOOP, _CLEANED + _ANY.replace("SEQ", "pathnames") + "    return posixpath.join(directory, *cleaned)\n")]},
+    {"name": "sj-comprehension-does-not-normalise", "expect": "R14.1", "edits": [(S, _LOOP, "    cleaned = [p for p in pathnames]\n\n" + _ANY.replace("SEQ", "cleaned") + "    return posixpath.join(directory, *cleaned)\n")]},
+    {"name": "sj-incremental-join-before-test", "expect": "R14.1", "edits": [(S, _LOOP, "    result = directory\n\n    for filename in pathnames:\n" + _NORM + "        result = posixpath.join(result, filename)\n\n" + _TEST + "    return result\n")]},
+    {"name": "sj-flag-tested-inverted", "expect": "R14.1", "edits": [(S, "    parts = [directory]\n\n    for filename in pathnames:\n" + _NORM + _TEST, "    parts = [directory]\n    refused = False\n\n    for filename in pathnames:\n" + _NORM + _TEST.replace("            return None\n", "            refused = True\n            break\n")), (S, "    return posixpath.join(*parts)\n", "    if not refused:\n        return None\n\n    return posixpath.join(*parts)\n")]},
+    {"name": "sj-flag-never-tested", "expect": "R14.1", "edits": [(S, "    parts = [directory]\n\n    for filename in pathnames:\n" + _NORM + _TEST, "    parts = [directory]\n    refused = False\n\n    for filename in pathnames:\n" + _NORM + _TEST.replace("            return None\n", "            refused = True\n            break\n"))]},
+    {"name": "sj-enumerate-skips-first", "expect": "R14.1", "edits": [(S, "    for filename in pathnames:\n", "    for _index, filename in enumerate(pathnames[1:]):\n")]},
+    {"name": "sj-index-loop-skips-first", "expect": "R14.1", "edits": [(S, "    for filename in pathnames:\n", "    for index in range(1, len(pathnames)):\n        filename = pathnames[index]\n\n")]},
+    {"name": "sj-separate-pass-unused", "expect": "R14.1", "edits": [(S, "    for filename in pathnames:\n" + _NORM, '    normalised = [posixpath.normpath(p) if p != "" else "" for p in pathnames]\n\n    for filename in pathnames:\n')]},
+    {"name": "sj-check-pass-stops-early", "expect": "R14.1", "edits": [(S, _LOOP, _CLEANED + "    for filename in cleaned:\n        if filename == \"\":\n            break\n\n" + _TEST + "    return posixpath.join(directory, *cleaned)\n")]},
+    {"name": "sj-whole-join-of-raw-with-unnormalised-check", "expect": "R14.1", "edits": [(S, _LOOP, "    for filename in pathnames:\n" + _TEST + "    return posixpath.join(directory, *pathnames)\n")]},
+    {"name": "sj-first-segment-typo", "expect": "R14.1", "edits": [(S, '            or filename == ".."\n            or filename.startswith("../")\n', '            or filename.partition("/")[0] == "..."\n')]},
+    {"name": "sj-head-slice-too-short", "expect": "R14.1", "edits": [(S, '            or filename.startswith("../")\n', '            or filename[:2] == "../"\n')]},
+    {"name": "sj-list-rebuilt-with-unchecked-extra", "expect": "R14.1", "edits": [(S, "    return posixpath.join(*parts)\n", "    return posixpath.join(*parts, *pathnames[-1:])\n")]},
+]
+
+MUTANTS += [
+    {"name": "sf-re-sub-function-limited-count", "expect": "R14.4", "edits": [(U, _SUB, 'filename = re.sub(_filename_ascii_strip_re, "", "_".join(filename.split()), 1).strip("._")')]},
+    {"name": "sf-char-filter-inverted", "expect": "R14.4", "edits": [(U, _SUB, 'filename = "".join(\n        ch for ch in "_".join(filename.split()) if _filename_ascii_strip_re.match(ch)\n    ).strip("._")')]},
+    {"name": "sf-char-filter-after-strip", "expect": "R14.4", "edits": [(U, _SUB, 'filename = "".join(\n        ch for ch in "_".join(filename.split()).strip("._") if not _filename_ascii_strip_re.match(ch)\n    )')]},
+    {"name": "sf-whitespace-regex-without-filter", "expect": "R14.4", "edits": [(U, _SUB, 'filename = re.sub(r"\\s+", "_", filename.strip()).strip("._")')]},
+    {"name": "sf-conditional-return-dot-prefix", "expect": "R14.4", "edits": [(U, _WIN, "    reserved = (\n        os.name == \"nt\"\n        and filename\n        and filename.split(\".\")[0].upper() in _windows_device_files\n    )\n    return f\".{filename}\" if reserved else filename\n")]},
+    {"name": "sf-lstrip-only-underscore", "expect": "R14.4", "edits": [(U, _SUB, 'filename = str(_filename_ascii_strip_re.sub("", "_".join(filename.split())))\n    filename = filename.lstrip("_").rstrip("._")')]},
+]
+
+TWINS += [
+    {"name": "sj-list-built-from-checked-sequence", "edits": [(S, _LOOP, _CLEANED + "    for filename in cleaned:\n" + _TEST + "    parts = [directory, *cleaned]\n    return posixpath.join(*parts)\n")]},
+]
+MUTANTS += [
+    {"name": "sj-list-built-before-the-check", "expect": "R14.1", "edits": [(S, _LOOP, _CLEANED + "    parts = [directory, *cleaned]\n\n    if not pathnames[0]:\n        return posixpath.join(*parts)\n\n    for filename in cleaned:\n" + _TEST + "    return posixpath.join(*parts)\n")]},
+]
+
+_NORMALISER = 'def _normalise(name: str) -> str:\n    if name == "":\n        return name\n\n    return posixpath.normpath(name)\n\n\n'
+_FILTER = (
+    "def _checked_component(name: str) -> str | None:\n"
+    '    if name != "":\n'
+    "        name = posixpath.normpath(name)\n\n"
+    "    if (\n"
+    "        any(sep in name for sep in _os_alt_seps)\n"
+    "        or os.path.isabs(name)\n"
+    '        or name.startswith("/")\n'
+    '        or name == ".."\n'
+    '        or name.startswith("../")\n'
+    "    ):\n"
+    "        return None\n\n"
+    "    return name\n\n\n"
+)
+_FILTER_USE = "        checked = _checked_component(filename)\n\n        if checked is None:\n            return None\n\n        parts.append(checked)\n"
+TWINS += [
+    {"name": "sj-normalise-helper-extracted", "edits": [(S, _NORM, "        filename = _normalise(filename)\n\n"), (S, _SIG, _NORMALISER + _SIG)]},
+    {"name": "sj-iteration-body-extracted-into-filter-helper", "edits": [(S, _NORM + _TEST + "        parts.append(filename)\n", _FILTER_USE), (S, _SIG, _FILTER + _SIG)]},
+    {"name": "sj-filter-helper-walrus", "edits": [(S, _NORM + _TEST + "        parts.append(filename)\n", "        if (checked := _checked_component(filename)) is None:\n            return None\n\n        parts.append(checked)\n"), (S, _SIG, _FILTER + _SIG)]},
+]
+MUTANTS += [
+    {"name": "sj-normalise-helper-skips-normpath-for-dots", "expect": "R14.1", "edits": [(S, _NORM, "        filename = _normalise(filename)\n\n"), (S, _SIG, _NORMALISER.replace('if name == "":', 'if name == "" or name.startswith("."):') + _SIG)]},
+    {"name": "sj-filter-helper-forgets-dotdot", "expect": "R14.1", "edits": [(S, _NORM + _TEST + "        parts.append(filename)\n", _FILTER_USE), (S, _SIG, _FILTER.replace('        or name == ".."\n', "") + _SIG)]},
+    {"name": "sj-filter-helper-tests-before-normpath", "expect": "R14.1", "edits": [(S, _NORM + _TEST + "        parts.append(filename)\n", _FILTER_USE), (S, _SIG, _FILTER.replace('    if name != "":\n        name = posixpath.normpath(name)\n\n', "").replace("        return None\n\n    return name\n", "        return None\n\n    if name != \"\":\n        name = posixpath.normpath(name)\n\n    return name\n") + _SIG)]},
+    {"name": "sj-filter-result-not-tested", "expect": "R14.1", "edits": [(S, _NORM + _TEST + "        parts.append(filename)\n", "        checked = _checked_component(filename)\n        parts.append(filename if checked is None else checked)\n"), (S, _SIG, _FILTER + _SIG)]},
+    {"name": "sj-filter-refusal-skips-the-component", "expect": "R14.1", "edits": [(S, _NORM + _TEST + "        parts.append(filename)\n", _FILTER_USE.replace("            return None\n", "            continue\n")), (S, _SIG, _FILTER + _SIG)]},
+]
